@@ -2,6 +2,7 @@ import VlsModel.Props.C18
 import VlsModel.Gen.FnByteUtils
 import VlsModel.Gen.FnChanId
 import VlsModel.Gen.FnDerive
+import VlsModel.Gen.FnChannel
 import VlsModel.Lemmas.FnGen
 /-
 C18 — `Keys.be64` (the BIP32 child index `LdkKeyDerive::channel_keys` reads off `keys_id[0..8]`,
@@ -239,6 +240,95 @@ theorem C18_fn_keys_id_ldk (P : Prims) (ext : List Nat → List Nat → List Nat
   | b0 :: b1 :: b2 :: b3 :: b4 :: rest, _ =>
     simp only [Gen.FnDerive.LdkKeyDerive.keys_id, keysIdOf, maskOf, he, hr]
     simp [toN, Rs.setIndex, Rs.index, applyMask, Gen.KeyDeriveUse.ldkKeysIdMask, List.modify]
+
+
+/-! ## channel.rs: the guards of `get_per_commitment_point` / `get_per_commitment_secret_or_none` /
+`release_commitment_secret` and the commitment index handed to the signer
+
+The bodies are regenerated in `Gen/FnChannel.lean` (targets of the C01 builder).  Here the C18 model's guards
+`pointAllowed`, `secretReleasable`, the index `INITIAL_COMMITMENT_NUMBER - n` of `holderSecret` and the reply of a
+repeated revocation (`revokeReply`) are proved to be those bodies.  `genChan c` is the generated view of a ready model
+channel (its signer = the key material, `next_holder_commit_num`); the signer's `release_commitment_secret(idx)` is
+`commitSecret H seed idx` (LDK `build_commitment_secret`), `SecretKey::from_slice` never fails on 32 bytes. -/
+
+def genChan (c : Chan) : Gen.FnChannel.Channel KeyMaterial := ⟨c.keys, ⟨c.nextHolder⟩⟩
+
+def relSecret (H : Bytes → Bytes) : KeyMaterial → Nat → Option Bytes :=
+  fun k idx => some (commitSecret H k.commitmentSeed idx)
+
+/-- **C18_fn_point_guard.** generated `Channel::get_per_commitment_point` = the model's guard `pointAllowed` (ready
+    channel): point `n` is handed out iff `n ≤ next_holder_commit_num + 1`, else `policy-optional-fail-fast` -/
+theorem C18_fn_point_guard {PK : Type} (ext : Nat → PK) (c : Chan) (n : Nat) (hr : c.ready = true)
+    (hn : c.nextHolder < Rs.U64_MAX) :
+    Gen.FnChannel.Channel.get_per_commitment_point ext (genChan c) n
+      = if pointAllowed c n then .ok (ext n) else .error (.err "policy-optional-fail-fast") := by
+  have h1 : c.nextHolder + 1 ≤ Rs.U64_MAX := by omega
+  by_cases h : n ≤ c.nextHolder + 1
+  · have : ¬ n > c.nextHolder + 1 := by omega
+    simp [Gen.FnChannel.Channel.get_per_commitment_point, genChan, Rs.uadd, h1, pointAllowed, hr, h, this]
+  · have : n > c.nextHolder + 1 := by omega
+    simp [Gen.FnChannel.Channel.get_per_commitment_point, genChan, Rs.uadd, h1, pointAllowed, hr, h, this, Rs.fail]
+
+/-- **C18_fn_secret_or_none.** generated `Channel::get_per_commitment_secret_or_none` = the model: a secret is
+    handed out iff `secretReleasable` (`n + 2 ≤ next_holder_commit_num`), and it is the signer's secret at index
+    `INITIAL_COMMITMENT_NUMBER - n` = `holderSecret` -/
+theorem C18_fn_secret_or_none (H : Bytes → Bytes) (c : Chan) (n : Nat) (hr : c.ready = true)
+    (hb : c.nextHolder ≤ INITIAL_COMMITMENT_NUMBER + 2) :
+    Gen.FnChannel.Channel.get_per_commitment_secret_or_none (relSecret H) some (genChan c) n
+      = .ok (if secretReleasable c n then holderSecret H c.keys n else none) := by
+  have hI : INITIAL_COMMITMENT_NUMBER = 281474976710655 := by decide
+  by_cases h : n + 2 ≤ c.nextHolder
+  · have h1 : n + 2 ≤ Rs.U64_MAX := by simp [Rs.U64_MAX]; omega
+    have h2 : ¬ n + 2 > c.nextHolder := by omega
+    have h3 : n ≤ 281474976710655 := by omega
+    have h4 : n ≤ INITIAL_COMMITMENT_NUMBER := by omega
+    simp [Gen.FnChannel.Channel.get_per_commitment_secret_or_none, genChan, Rs.ucheckedAdd, h1, h2, Rs.usub, h3,
+      relSecret, Rs.unwrap, secretReleasable, hr, h, holderSecret, hI]
+  · by_cases h1 : n + 2 ≤ Rs.U64_MAX
+    · have h2 : n + 2 > c.nextHolder := by omega
+      simp [Gen.FnChannel.Channel.get_per_commitment_secret_or_none, genChan, Rs.ucheckedAdd, h1, h2,
+        secretReleasable, h]
+    · simp [Gen.FnChannel.Channel.get_per_commitment_secret_or_none, genChan, Rs.ucheckedAdd, h1,
+        secretReleasable, h]
+
+/-- **C18_fn_release_commitment_secret.** generated `Channel::release_commitment_secret(N)` on the branch a repeated
+    revocation takes (`N < next_holder_commit_num`, no policy filter) = the model's `revokeReply`: the next point is
+    point `N + 1`, the released secret is `holderSecret (N - 1)` (none for `N = 0`), the channel is unchanged -/
+theorem C18_fn_release_commitment_secret {PK : Type} (H : Bytes → Bytes) (ext : Nat → PK) (c : Chan) (N : Nat)
+    (hr : c.ready = true) (hN : N < c.nextHolder) (hb : c.nextHolder ≤ INITIAL_COMMITMENT_NUMBER + 2) :
+    Gen.FnChannel.Channel.release_commitment_secret ext (fun _ => true) (relSecret H) some (genChan c) N
+      = .ok (genChan c, (ext (N + 1), if N = 0 then none else holderSecret H c.keys (N - 1))) ∧
+    revokeReply H c N = some (if N = 0 then none else holderSecret H c.keys (N - 1), holderSecret H c.keys (N + 1)) := by
+  have hI : INITIAL_COMMITMENT_NUMBER = 281474976710655 := by decide
+  have hmax : c.nextHolder + 1 ≤ Rs.U64_MAX := by simp [Rs.U64_MAX]; omega
+  have hsat : Rs.usatAdd Rs.U64_MAX N 1 = N + 1 := by
+    simp [Rs.usatAdd, Rs.U64_MAX, Nat.min_def]; omega
+  have hp : ¬ N + 1 > c.nextHolder + 1 := by omega
+  constructor
+  · by_cases h0 : N = 0
+    · subst h0
+      simp [Gen.FnChannel.Channel.release_commitment_secret, Gen.FnChannel.Channel.get_per_commitment_point, genChan,
+        hsat, Rs.uadd, hmax, hp]
+    · have hge : N ≥ 1 := by omega
+      have h1 : N - 1 + 2 ≤ Rs.U64_MAX := by simp [Rs.U64_MAX]; omega
+      have h2 : ¬ N - 1 + 2 > c.nextHolder := by omega
+      have h3 : N - 1 ≤ 281474976710655 := by omega
+      have h4 : N - 1 ≤ INITIAL_COMMITMENT_NUMBER := by omega
+      have h5 : 1 ≤ N := hge
+      simp [Gen.FnChannel.Channel.release_commitment_secret, Gen.FnChannel.Channel.get_per_commitment_point,
+        Gen.FnChannel.Channel.get_per_commitment_secret, genChan, hsat, Rs.uadd, hmax, hp, hge, h0, Rs.usub,
+        Rs.ucheckedAdd, h1, h2, h3, relSecret, Rs.unwrap, holderSecret, hI]
+  · simp [revokeReply, hr, hN]
+
+/-- a stub never hands out a secret: generated `ChannelStub::get_per_commitment_secret_or_none` / `…_secret` and the
+    model's `secretReleasable` on a channel that is not ready -/
+theorem C18_fn_stub_secret (c : Chan) (n : Nat) (hr : c.ready = false) :
+    Gen.FnChannel.ChannelStub.get_per_commitment_secret_or_none (SecretKey := Bytes) ⟨⟩ n = none ∧
+    Gen.FnChannel.ChannelStub.get_per_commitment_secret (SecretKey := Bytes) ⟨⟩ n
+      = .error (.err "policy-revoke-new-commitment-valid") ∧
+    secretReleasable c n = false := by
+  refine ⟨rfl, rfl, ?_⟩
+  simp [secretReleasable, hr]
 
 /-- **C18_fn_ldk_index_in_range.** the LDK derivation's `assert!(chan_id <= u32::MAX)` and
     `from_hardened_idx(chan_id as u32)` see exactly the value of the generated function: on a keys id masked with the
